@@ -49,8 +49,9 @@ ASSUMPTIONS = [
     '"the series the generator produced" = the array returned by the generator registered for the declared type, '
     'recorded by a spy wrapped around that generator (native catalogue entries wrapped in place)',
     'Integrate judged at rtol 1e-9 / atol 1e-11 (ncdf inside: 1e-6 / 1e-8). Calibration on the unchanged tree: the '
-    '100-point Gauss-Hermite rule of the external engine stayed within 1e-13 of the reference on 789 generated '
-    'integrands (buckets int_deviation_above_* in the counters show what this run saw); a logistic factor of slope 5 '
+    '100-point Gauss-Hermite rule of the external engine stayed within 1e-10 (relative) of the reference on 3200 '
+    'generated integrands, within 1e-13 on all but 5 of them (buckets int_deviation_above_* in the counters show '
+    'what this run saw); a logistic factor of slope 5 '
     'is off by 2.5e-8, so integrands are restricted to normal density x factors with slope / growth rate <= ~2.5 '
     '(the property says smooth, normally decaying)',
     'Derive judged at rtol 1e-8 against complex-step; cases where complex step and central differences of the '
@@ -59,9 +60,9 @@ ASSUMPTIONS = [
 MIN_DISTINCT = {'quick': 300, 'thorough': 4000}
 CASE_TIMEOUT = 180
 
-N_MC = {'quick': 520, 'thorough': 6000}
-N_INT = {'quick': 220, 'thorough': 2400}
-N_DER = {'quick': 300, 'thorough': 3400}
+N_MC = {'quick': 520, 'thorough': 5200}
+N_INT = {'quick': 220, 'thorough': 2000}
+N_DER = {'quick': 300, 'thorough': 3000}
 
 INT_RTOL, INT_ATOL = 1e-9, 1e-11
 
@@ -147,7 +148,7 @@ def cases(seed, tier):
     # directed, deterministic (same in both tiers and for every seed)
     for i in range(12):
         out.append({'kind': 'mc', 'seed': 4242, 'i': i, 'tier': 'quick', 'directed': 'square'})
-    for k in range(6):
+    for k in range(6 if tier == 'quick' else 36):
         out.append({'kind': 'seeds', 'seed': 4242, 'i': k, 'tier': 'quick'})
     out.append({'kind': 'closed', 'seed': 0, 'i': 0, 'tier': 'quick'})
     out.append({'kind': 'reserved', 'seed': 0, 'i': 0, 'tier': 'quick'})
